@@ -53,6 +53,14 @@ func init() {
 		for i := 0; i < h.n; i++ {
 			size := h.rng.Intn(1 << 20)
 			n := h.rng.Intn(8)
+			switch h.rng.Intn(8) { // a share of long lists, of small sizes, of huge sizes
+			case 0:
+				n = 8 + h.rng.Intn(40)
+			case 1:
+				size = h.rng.Intn(12)
+			case 2:
+				size = 1<<40 + h.rng.Intn(1<<20)
+			}
 			offs := make([]int, n)
 			for j := range offs {
 				switch h.rng.Intn(5) {
